@@ -57,6 +57,7 @@ Record st := {
   next_out : nextout; storage : list N; storage_size : N; tiny : list N;
   avail_out_ : N; total_out_ : N;
   last_emitted : bool;
+  first_pending : bool;   (* IsFirst::NothingWritten: no block has gone through encode_data yet *)
   oracle : list answer }.
 
 Definition init_st : st :=
@@ -64,7 +65,7 @@ Definition init_st : st :=
      appendable := false; magic := false; size_hint := 0; initialized := false; sstate_ := SProcessing;
      rem_meta := 0; input_pos := 0; last_flush_pos := 0; last_processed_pos := 0;
      last_bytes := 0; last_bytes_bits := 0; next_out := NoNone; storage := []; storage_size := 0;
-     tiny := repeat 0 16; avail_out_ := 0; total_out_ := 0; last_emitted := false; oracle := [] |}.
+     tiny := repeat 0 16; avail_out_ := 0; total_out_ := 0; last_emitted := false; first_pending := true; oracle := [] |}.
 
 (* functional record update helpers *)
 Definition upd_params (s : st) q w b lw c a h : st :=
@@ -74,7 +75,7 @@ Definition upd_params (s : st) q w b lw c a h : st :=
      last_processed_pos := last_processed_pos s; last_bytes := last_bytes s;
      last_bytes_bits := last_bytes_bits s; next_out := next_out s; storage := storage s;
      storage_size := storage_size s; tiny := tiny s; avail_out_ := avail_out_ s;
-     total_out_ := total_out_ s; last_emitted := last_emitted s; oracle := oracle s |}.
+     total_out_ := total_out_ s; last_emitted := last_emitted s; first_pending := first_pending s; oracle := oracle s |}.
 Definition upd_core (s : st) ini ss rm : st :=
   {| quality := quality s; lgwin := lgwin s; lgblock := lgblock s; large_window := large_window s;
      catable := catable s; appendable := appendable s; magic := magic s; size_hint := size_hint s;
@@ -83,7 +84,7 @@ Definition upd_core (s : st) ini ss rm : st :=
      last_processed_pos := last_processed_pos s; last_bytes := last_bytes s;
      last_bytes_bits := last_bytes_bits s; next_out := next_out s; storage := storage s;
      storage_size := storage_size s; tiny := tiny s; avail_out_ := avail_out_ s;
-     total_out_ := total_out_ s; last_emitted := last_emitted s; oracle := oracle s |}.
+     total_out_ := total_out_ s; last_emitted := last_emitted s; first_pending := first_pending s; oracle := oracle s |}.
 Definition upd_pos (s : st) ip lf lp : st :=
   {| quality := quality s; lgwin := lgwin s; lgblock := lgblock s; large_window := large_window s;
      catable := catable s; appendable := appendable s; magic := magic s; size_hint := size_hint s;
@@ -91,7 +92,7 @@ Definition upd_pos (s : st) ip lf lp : st :=
      input_pos := ip; last_flush_pos := lf; last_processed_pos := lp;
      last_bytes := last_bytes s; last_bytes_bits := last_bytes_bits s; next_out := next_out s;
      storage := storage s; storage_size := storage_size s; tiny := tiny s;
-     avail_out_ := avail_out_ s; total_out_ := total_out_ s; last_emitted := last_emitted s;
+     avail_out_ := avail_out_ s; total_out_ := total_out_ s; last_emitted := last_emitted s; first_pending := first_pending s;
      oracle := oracle s |}.
 Definition upd_bits (s : st) lb lbb : st :=
   {| quality := quality s; lgwin := lgwin s; lgblock := lgblock s; large_window := large_window s;
@@ -100,7 +101,7 @@ Definition upd_bits (s : st) lb lbb : st :=
      input_pos := input_pos s; last_flush_pos := last_flush_pos s;
      last_processed_pos := last_processed_pos s; last_bytes := lb; last_bytes_bits := lbb;
      next_out := next_out s; storage := storage s; storage_size := storage_size s; tiny := tiny s;
-     avail_out_ := avail_out_ s; total_out_ := total_out_ s; last_emitted := last_emitted s;
+     avail_out_ := avail_out_ s; total_out_ := total_out_ s; last_emitted := last_emitted s; first_pending := first_pending s;
      oracle := oracle s |}.
 Definition upd_out (s : st) no sto ssz tn ao tot : st :=
   {| quality := quality s; lgwin := lgwin s; lgblock := lgblock s; large_window := large_window s;
@@ -109,7 +110,7 @@ Definition upd_out (s : st) no sto ssz tn ao tot : st :=
      input_pos := input_pos s; last_flush_pos := last_flush_pos s;
      last_processed_pos := last_processed_pos s; last_bytes := last_bytes s;
      last_bytes_bits := last_bytes_bits s; next_out := no; storage := sto; storage_size := ssz;
-     tiny := tn; avail_out_ := ao; total_out_ := tot; last_emitted := last_emitted s;
+     tiny := tn; avail_out_ := ao; total_out_ := tot; last_emitted := last_emitted s; first_pending := first_pending s;
      oracle := oracle s |}.
 Definition upd_misc (s : st) le orc : st :=
   {| quality := quality s; lgwin := lgwin s; lgblock := lgblock s; large_window := large_window s;
@@ -119,7 +120,16 @@ Definition upd_misc (s : st) le orc : st :=
      last_processed_pos := last_processed_pos s; last_bytes := last_bytes s;
      last_bytes_bits := last_bytes_bits s; next_out := next_out s; storage := storage s;
      storage_size := storage_size s; tiny := tiny s; avail_out_ := avail_out_ s;
-     total_out_ := total_out_ s; last_emitted := le; oracle := orc |}.
+     total_out_ := total_out_ s; last_emitted := le; first_pending := first_pending s; oracle := orc |}.
+Definition set_first_pending (s : st) (b : bool) : st :=
+  {| quality := quality s; lgwin := lgwin s; lgblock := lgblock s; large_window := large_window s;
+     catable := catable s; appendable := appendable s; magic := magic s; size_hint := size_hint s;
+     initialized := initialized s; sstate_ := sstate_ s; rem_meta := rem_meta s;
+     input_pos := input_pos s; last_flush_pos := last_flush_pos s;
+     last_processed_pos := last_processed_pos s; last_bytes := last_bytes s;
+     last_bytes_bits := last_bytes_bits s; next_out := next_out s; storage := storage s;
+     storage_size := storage_size s; tiny := tiny s; avail_out_ := avail_out_ s;
+     total_out_ := total_out_ s; last_emitted := last_emitted s; first_pending := b; oracle := oracle s |}.
 Definition set_sstate (s : st) ss := upd_core s (initialized s) ss (rem_meta s).
 Definition set_hint (s : st) h :=
   upd_params s (quality s) (lgwin s) (lgblock s) (large_window s) (catable s) (appendable s) h.
@@ -132,7 +142,7 @@ Definition set_magic (s : st) (m : bool) : st :=
      last_processed_pos := last_processed_pos s; last_bytes := last_bytes s;
      last_bytes_bits := last_bytes_bits s; next_out := next_out s; storage := storage s;
      storage_size := storage_size s; tiny := tiny s; avail_out_ := avail_out_ s;
-     total_out_ := total_out_ s; last_emitted := last_emitted s; oracle := oracle s |}.
+     total_out_ := total_out_ s; last_emitted := last_emitted s; first_pending := first_pending s; oracle := oracle s |}.
 
 (* ---- set_parameter ---- *)
 Definition i32_of_u32 (v : N) : Z := if v <? 2147483648 then Z.of_N v else (Z.of_N v - 4294967296)%Z.
@@ -355,7 +365,7 @@ Definition encode_data (s : st) (is_last force_flush : bool) : outcome (bool * s
           else
           let s2 := upd_out s1 (a_no a) sto ssz (tiny s1) (lenN (a_out a)) (total_out_ s1) in
           let s3 := upd_bits s2 (a_lb a) (a_lbb a) in
-          Done (true, upd_pos s3 (input_pos s3) (a_lfp a) (a_lpp a))
+          Done (true, set_first_pending (upd_pos s3 (input_pos s3) (a_lfp a) (a_lpp a)) false)
   end.
 
 (* ---- compress_stream main loop (quality >= 2, or catable) ---- *)
@@ -488,7 +498,8 @@ Fixpoint meta_loop (fuel : nat) (payload : list N) (s : st) (x : io) : outcome (
     | Done (Some (s', x')) => meta_loop f payload s' x'
     | Done None =>
       if negb (avail_out_ s =? 0) then Done (true, s, x)
-      else if negb (input_pos s =? last_flush_pos s) then
+      (* fix 696be73: a pending magic-number header goes out before the caller's metadata *)
+      else if negb (input_pos s =? last_flush_pos s) || (magic s && first_pending s) then
         match encode_data s false true with
         | Panic w => Panic w | Mismatch w => Mismatch w | OutOfFuel => OutOfFuel
         | Done (false, s2) => Done (false, s2, x)
